@@ -431,3 +431,58 @@ def r_cyts(P, R):
     handles(P, R)
     temporaries(P, R)
 r_cyts.NAME = 'R-CYTS'
+
+
+def r_cache_tags(P, R):
+    """The CUDD computed table is shared by all operators and keyed by
+    (tag, operands): an operator must look up and insert under its own
+    tag and the same operands, and no two operators share a tag."""
+    owners = dict()
+    n = 0
+    for f in sorted(P.all_funcs({'dd.cudd_zdd', 'dd.cudd'}),
+                    key=lambda f: f.qualname):
+        look = [c for c in au.calls_in(f.node)
+                if (au.call_name(c) or '').startswith('cuddCacheLookup')]
+        ins = [c for c in au.calls_in(f.node)
+               if (au.call_name(c) or '').startswith('cuddCacheInsert')]
+        if not look and not ins:
+            continue
+        n += 1
+        keys_l = {tuple(au.src(a) for a in c.args[1:4]) for c in look}
+        keys_i = {tuple(au.src(a) for a in c.args[1:4]) for c in ins}
+        if not look or not ins:
+            R.violation(
+                'R-MEMO', 'cudd-cache-pair', f.qualname,
+                'lookup' if not look else 'insert',
+                f'{f.qualname} uses the CUDD computed table but '
+                + ('never looks a result up' if not look else
+                   'never inserts a result'), unit=f.unit.rel,
+                line=f.lineno)
+            continue
+        if keys_l != keys_i or len(keys_l) != 1:
+            c = ins[0]
+            R.violation(
+                'R-MEMO', 'cudd-cache-key', f.qualname,
+                'tag-and-operands',
+                f'{f.qualname} looks results up under {sorted(keys_l)} '
+                f'but inserts them under {sorted(keys_i)}: the result is '
+                'filed under the key of another operator (or other '
+                'operands), which later returns it as its own',
+                unit=f.unit.rel, line=c.lineno)
+            continue
+        tag = next(iter(keys_l))[0]
+        owners.setdefault(tag, []).append(f.qualname)
+        R.holds('R-MEMO', f.qualname,
+                f'CUDD cache: lookup and insert under {next(iter(keys_l))}')
+    for tag, fs in sorted(owners.items()):
+        if len(fs) > 1:
+            R.violation(
+                'R-MEMO', 'cudd-cache-tag-shared', fs[1], tag,
+                f'{fs} file their results under the same tag `{tag}`: '
+                'one operator returns the results of the other',
+                unit=P.func(fs[1]).unit.rel, line=P.func(fs[1]).lineno)
+    if n < 4:
+        raise AnalysisError(
+            f'R-MEMO/cudd-cache: {n} function(s) use the CUDD computed '
+            'table, 4 confirmed on the reference tree')
+r_cache_tags.NAME = 'R-MEMO-CUDD'
